@@ -22,12 +22,13 @@ RULE = (
     "LOOP machines = cycle kind {always<->always, action raising its own trigger, onDone re-completing its own state, "
     "done.invoke of an instantly returning service re-entering its state, self-enqueueing pure / choose / "
     "enqueueActions} x maxIterations M x natural length L in {M-1, M, M+1, inf} x trigger {start(), event} x engine; "
+    "REPEAT machines = M+2 finite chains of M-1 self-raised events each in ONE interpreter, started through send / send_events / a mix / a re-arming after-timer (none may be cut: the bound is per macrostep); "
     "BURST machines = B external events (send_events / separate sends) for B in {M-1, M+1, 3M}; each case is one "
     "execution judged on: returns within budget, natural end for L<M, ERROR log + legal configuration + answering a "
     "probe event for L>M, every external event processed; distinct_nontrivial = distinct cases"
 )
 BOUNDS = {
-    "quick": "M in {3,5}; all kinds, lengths, triggers, engines; bursts",
+    "quick": "M in {3,5}; all kinds, lengths, triggers, engines; repeated chains via 5 delivery paths; bursts",
     "thorough": "M in {3,5,8}; plus deep-expansion case M=60, L=55; bursts up to 3M",
 }
 ASSUMPTIONS = [
@@ -149,9 +150,29 @@ def burst_cfg(M: int) -> Dict[str, Any]:
     }
 
 
+def repeat_cfg(M: int, L: int) -> Dict[str, Any]:
+    """Every GO starts a finite chain of L self-raised HOP events (L < M); TICK states re-arm a 10 ms timer whose
+    transition raises one event per tick.  Many such chains in one interpreter never add up to a cut."""
+    return {
+        "id": "m", "initial": "idle", "maxIterations": M, "context": {"k": 0, "L": L},
+        "states": {
+            "idle": {"on": {"POLL": "poll"}},
+            "poll": {"after": {"10": {"target": "poll", "reenter": True, "actions": [A.raise_("TICKED")]}}, "on": {"TICKED": {"actions": ["mk:tick"]}}},
+        },
+        "on": {
+            "GO": {"actions": [A.assign({"k": 0}), A.raise_("HOP")]},
+            "HOP": {"actions": [A.assign(inc), "mk:step", A.choose([{"guard": "lt", "actions": [A.raise_("HOP")]}])]},
+            "PROBE": {"actions": ["mk:probe"]},
+        },
+    }
+
+
 def units(tier: str) -> List[Any]:
     Ms = (3, 5) if tier == "quick" else (3, 5, 8)
     us: List[Any] = []
+    for M in Ms:
+        for how in ("send", "send_events_single", "send_events_batch", "mixed", "timer"):
+            us.append(("repeat", how, M, M + 2, None))
     for kind in KINDS:
         for M in Ms:
             for L in (M - 1, M, M + 1, INF):
@@ -184,6 +205,8 @@ def run_unit(unit):
             _, kind, M, L, trig = unit
             rel = "inf" if L == INF else ("<M" if L < M else "=M" if L == M else ">M")
             sig = f"C13|{clause}|{engine}|kind={kind}|L{rel}"
+        elif kind0 == "repeat":
+            sig = f"C13|{clause}|{engine}|via={unit[1]}"
         else:
             sig = f"C13|{clause}|{engine}|burst={unit[1]}"
         res["violations"].append(dict(signature=sig, clause=clause,
@@ -253,6 +276,41 @@ def run_unit(unit):
                 answered = any(e[0] == "A" and e[1] in ("mk:probe", "mk:step") for e in d.rec.since(mark))
                 if perr is not None or not answered:
                     flag("does-not-answer-next-event", f"probe error {perr!r}", engine)
+            finally:
+                d.close()
+        elif kind0 == "repeat":
+            _, how, M, R, _ = unit
+            L = M - 1
+            h = Harness(repeat_cfg(M, L), with_plugin=True, extra_guards={"lt": lt_guard}, extra_markers=["mk:step", "mk:tick"], budget=5000, threads=True)
+            d = h.driver(engine)
+            try:
+                d.start()
+                core.LOG.reset()
+
+                def batch(evs):
+                    d.send_batch([{"type": e} for e in evs])
+
+                if how == "send":
+                    for _ in range(R):
+                        d.send("GO")
+                elif how == "send_events_single":
+                    for _ in range(R):
+                        batch(["GO"])
+                elif how == "send_events_batch":
+                    batch(["GO"] * R)
+                elif how == "mixed":
+                    for i in range(R):
+                        d.send("GO") if i % 2 == 0 else batch(["GO"])
+                else:
+                    d.send("POLL")
+                    for _ in range(R):
+                        d.advance(0.01)
+                        d.settle()
+                steps = sum(1 for e in d.rec.log if e[0] == "A" and e[1] == ("mk:tick" if how == "timer" else "mk:step"))
+                want = R if how == "timer" else R * L
+                cut = [m for m in core.LOG.errors() if "xceeded" in m]
+                if steps != want or cut:
+                    flag("short-chains-add-up-to-a-cut", f"{R} chains of {L if how != 'timer' else 1} self-raised event(s) each via {how}, maxIterations {M}: {steps} steps of {want}; log {cut[:1]}", engine)
             finally:
                 d.close()
         else:
